@@ -145,6 +145,10 @@ def tmo_nodes(wf):
     return out
 
 
+# properties stated against a reference interpretation of the model: a trace that differs from the engine model's is the failure
+REFERENCE = {'C04', 'C06', 'C07', 'C16'}
+
+
 def classify(case, clause, tid, mlines):
     """class string of a violation, computed on the model's trace of the same case (it agrees line by
     line with the implementation's when the correspondence holds)"""
@@ -255,7 +259,15 @@ def run(prop, tier, seed):
         broken.append(('harness', "; ".join(res['harness_errors'])[:500]))
     for d in dis[:5]:
         broken.append(('correspondence', f"case {d['case']['id']}: model `{d['model']}` vs implementation `{d['impl']}` at projected line {d['at']} (line kinds {sorted(kinds)})"))
-    # a disagreement without an oracle violation: keep the first case as replay material
+    # a disagreement is a concrete case: for the properties whose statement is conformance with the reference
+    # interpretation (the engine model) it is the failing input; for the others it is kept as replay material
+    disagreements = []
+    for d in dis[:5]:
+        mk = (d['model'] or 'END').split(' ')[0]
+        ik = (d['impl'] or 'END').split(' ')[0]
+        disagreements.append({'class': f"diff:{mk}/{ik}",
+                              'detail': f"case {d['case']['id']}: the reference interpretation continues with `{d['model']}`, the implementation with `{d['impl']}` (projected line {d['at']}, line kinds {sorted(kinds)})",
+                              'case': {'kind': 'engine', 'case': d['case'], 'clause': 0, 'task': 0}})
     if prop == 'C19':
         nontrivial = len([cid for cid in cases if any(l.startswith('F ') for l in i.get(cid, []))])
     if prop in NONTRIVIAL:
@@ -265,7 +277,7 @@ def run(prop, tier, seed):
            'traces_validated_against_impl': agree, 'disagreements': len(dis),
            'input_distribution': res['distribution'], 'corpus_cases': res['ncorpus'],
            'samples': [json.loads(open(res['cases']).readline())]}
-    return {'cov': cov, 'violations': violations, 'broken': broken,
+    return {'cov': cov, 'violations': violations, 'broken': broken, 'disagreements': disagreements, 'reference': prop in REFERENCE,
             'assumptions': ["one engine operation (scheduler step, client action, tick) is atomic; overlap of exec and update on different threads is not modelled",
                             "deterministic tier: current_thread runtime, FIFO queue below 100 pending signals",
                             "QuickJS evaluates the generated condition fragment as the model's evaluator does"]}
